@@ -46,6 +46,24 @@ STRENGTHENED = {
     "C17-3": "the twin stage not returning within a generous limit is a violation (`twin-integrations|do-not-return`) instead of a machinery failure",
     "C18-4": "per-edge history: default call, call with `tol=1e-2`, default call again (identical coefficients, registry defaults unchanged)",
     "C19-4": "ballistic tolerance larger than the delta-v limit (`bal2 = 11`) and such runs routed through engine + interface",
+    "C01-5": "caught by C10 after `c10ev.py` gained short spans on fine grids (tf = 1e-5 on 2001 nodes): stamps are the grid, samples on the flow",
+    "C02-6": "`c02acc.py`: two oscillators of amplitude 1e3 and 1e-3, error of every component against its OWN tolerance",
+    "C03-5": "short-span STM contract: tf = 1.5e-5 on the default 2000-node grid, Phi against I + A tf with the C01-verified Jacobian, near the secondary too",
+    "C04-5": "orbits of every family with an analytic seed are built FROM the point between the two rounds of memoised reads (LibrationObject.tla: a re-read returns the value first returned)",
+    "C05-5": "history: orbit rebuilt from a converged state (zero Newton iterations) carrying a rounded period; closure with the period the object reports",
+    "C05-6": "the scripted-solver replay hands the stepper to the backend three ways in rotation (constructor, per call, per call over a different constructor stepper)",
+    "C06-6": "exhaustive sweep of LOCALLY built tables (`_init_index_tables(30)` + `_create_encode_dict_from_clmo`) to degree 30, not only of the global ones",
+    "C10-6": "`c10ev.py`: non-zero epoch (t0 = 0.75): stamps = forward * grid, states on the flow over the elapsed time, zero-span call at the same epoch",
+    "C11-5": "`c11hist.py`: fixed-step drivers on a non-uniform grid (dt 0.01 then 0.02), with a crossing and with an event that never fires",
+    "C12-5": "manifold objects sent through save / load and computed AFTER loading, both stabilities and sides: times, Floquet angle, same side as the unsaved object",
+    "C12-6": "displacement 1e-9 (edge of the range), phase 0 included: seed = orbit point + displacement * eigenvector",
+    "C13-5": "continuation state selection written four ways (tuple, scalar enum member of value 0, int, list): same family, only the selected component stepped",
+    "C13-6": "fine-step family (1e-6) and a period-less seed: every member's period against an independent re-correction",
+    "C14-6": "`get_states` / `get_points` with every pair of axes against the columns of `compute().states`",
+    "C15-5": "one-sided patterns with on-surface samples realised as residuals below the tolerance (5e-13) instead of exact zeros",
+    "C15-6": "public pipeline on a CLOSED trajectory (corrected Lyapunov orbit over one period), sections crossed in the first / last sample interval",
+    "C16-5": "`c16long.py`: the same grid shifted to clock values 1000 and 2000 must give the same states (autonomous Hamiltonian)",
+    "C19-5": "scale-invariance re-runs extended to 2^-20 and 2^-24 of the unit scale",
     "C20-2": "`spec/objects/probe/MCOrbitProbe.tla`: every writer out of every core state followed by every read",
 }
 
